@@ -247,6 +247,9 @@ func newGater() (*conngater.BasicConnectionGater, error) {
 	return conngater.NewBasicConnectionGater(dssync.MutexWrap(datastore.NewMapDatastore()))
 }
 
+// exchangeMetrics is set by the running scenario: clients are then built WithMetrics.
+var exchangeMetrics bool
+
 // newClient builds and starts a real p2p.Exchange on h with the given trusted peers.
 func newClient(h host.Host, trusted []peer.ID, chainID string, opts ...p2p.Option[p2p.ClientParameters]) (*p2p.Exchange[*vh.Header], error) {
 	g, err := newGater()
@@ -257,6 +260,9 @@ func newClient(h host.Host, trusted []peer.ID, chainID string, opts ...p2p.Optio
 		p2p.WithNetworkID[p2p.ClientParameters](netID),
 		p2p.WithChainID(chainID),
 	}, opts...)
+	if exchangeMetrics {
+		all = append(all, p2p.WithMetrics[p2p.ClientParameters]())
+	}
 	ex, err := p2p.NewExchange[*vh.Header](h, peer.IDSlice(trusted), g, all...)
 	if err != nil {
 		return nil, err
